@@ -48,6 +48,8 @@ type Obligation struct {
 
 // Config of one unit run.
 type Config struct {
+	AutoConcrete int // unannotated loops with a constant trip count up to this value are unrolled
+	InlineOnPreFail bool // a callee whose precondition cannot be proved is executed from its body instead (C20: values outside every invariant)
 	MaxPaths     int
 	MaxDepth     int
 	RegionHints  bool // decide block coincidences with the solver when a region is resolved
@@ -67,7 +69,7 @@ type Config struct {
 }
 
 func DefaultConfig() Config {
-	return Config{MaxPaths: 4000, MaxDepth: 14, QueryMs: 5000, FeasMs: 150, UnitSec: 400, MaxUnroll: 3, Safety: true, Z3: "z3-new", WantModel: true, InlineAcross: true}
+	return Config{MaxPaths: 4000, MaxDepth: 14, QueryMs: 5000, FeasMs: 150, UnitSec: 400, MaxUnroll: 3, Safety: true, Z3: "z3-new", WantModel: true, InlineAcross: true, AutoConcrete: 4}
 }
 
 // Unit is the verification of one target function (or lemma).
@@ -123,6 +125,9 @@ type Unit struct {
 	eqFacts  []eqFact
 	seqFacts []*seqFact
 	sigLog   []*sigEntry
+	curMethod string
+	shapesSeen map[string]bool
+	ErrorReturns int
 	kfMemo   map[string]kfEntry
 	algOfType map[string]*Term
 	objOwner map[string]IfaceV
